@@ -17,6 +17,7 @@ import (
 	"govc/engine"
 	"govc/smt"
 
+	"go/token"
 	"go/types"
 
 	"golang.org/x/tools/go/ssa"
@@ -43,6 +44,8 @@ type StructCheck struct {
 	Mutating []string `json:"mutating"` // iface-classified: every interface method is in one of the two lists
 	ReadOnly []string `json:"readonly"`
 	Forbidden []string `json:"forbidden"` // no-calls: forbidden callee prefixes ("os.", "time.Now", ...)
+	Writers   []string `json:"writers"`   // writes-only-in: functions (name substrings) allowed to write the type's fields
+	Benign    []string `json:"benign"`    // writes-only-in: callees (name substrings) a field address may be passed to
 }
 
 type Finding struct {
@@ -604,8 +607,14 @@ func runStructChecks(w *engine.World, checks []StructCheck) []structResult {
 							continue
 						}
 						name := callee.String()
+						okCaller := false
+						for _, a := range c.Writers { // allowed callers (calls-only-in reading of no-calls)
+							if strings.Contains(engine.ShortFn(fn), a) {
+								okCaller = true
+							}
+						}
 						for _, f := range c.Forbidden {
-							if strings.HasPrefix(name, f) {
+							if strings.HasPrefix(name, f) && !okCaller {
 								bad[f] = engine.ShortFn(fn) + " calls " + name
 							}
 						}
@@ -615,11 +624,15 @@ func runStructChecks(w *engine.World, checks []StructCheck) []structResult {
 			for _, f := range c.Forbidden {
 				name := fmt.Sprintf("struct/%s/no-calls:%s", short, f)
 				if why, isBad := bad[f]; isBad {
-					out = append(out, structResult{name, false, why + ": host state must be reached only through the sys.Context"})
+					out = append(out, structResult{name, false, why + ": outside the functions this call is reserved to"})
 				} else {
 					out = append(out, structResult{name, nfn > 0, "no functions scanned"})
 				}
 			}
+			continue
+		}
+		if c.Kind == "writes-only-in" {
+			out = append(out, writesOnlyIn(w, c)...)
 			continue
 		}
 		pkg := w.PPkgs[c.Pkg]
@@ -675,6 +688,144 @@ func runStructChecks(w *engine.World, checks []StructCheck) []structResult {
 					out = append(out, structResult{name, false, "interface method " + m + " is not classified as mutating or read-only: the read-only wrappers may pass it through"})
 				}
 			}
+		}
+	}
+	return out
+}
+
+// writesOnlyIn: ownership / frame condition decided on the SSA of the whole package: the fields of the
+// named struct type (state shared by every instance of a compiled module, say) are written - directly,
+// through an element of a slice/array/map they hold, or by handing their address to a callee that is not
+// listed as benign - only inside the listed functions. One obligation per field.
+func writesOnlyIn(w *engine.World, c StructCheck) []structResult {
+	short := c.Pkg[strings.LastIndex(c.Pkg, "/")+1:] + "." + c.Type
+	sp := w.Pkgs[c.Pkg]
+	if sp == nil {
+		return []structResult{{"struct/" + short + "/writes-only-in", false, "package not loaded"}}
+	}
+	tn := sp.Type(c.Type)
+	if tn == nil {
+		return []structResult{{"struct/" + short + "/writes-only-in", false, "type not found"}}
+	}
+	st, ok := tn.Type().Underlying().(*types.Struct)
+	if !ok {
+		return []structResult{{"struct/" + short + "/writes-only-in", false, "not a struct"}}
+	}
+	bad := map[int][]string{}
+	allowed := func(fn *ssa.Function) bool {
+		f := fn
+		for f.Parent() != nil {
+			f = f.Parent()
+		}
+		n := engine.ShortFn(f)
+		for _, a := range c.Writers {
+			if strings.Contains(n, a) {
+				return true
+			}
+		}
+		return false
+	}
+	benign := func(name string) bool {
+		for _, b := range c.Benign {
+			if strings.Contains(name, b) {
+				return true
+			}
+		}
+		return false
+	}
+	var classify func(v ssa.Value, depth int) string
+	classify = func(v ssa.Value, depth int) string {
+		if depth > 6 || v.Referrers() == nil {
+			return ""
+		}
+		for _, r := range *v.Referrers() {
+			switch r := r.(type) {
+			case *ssa.Store:
+				if r.Addr == v {
+					return "stores to it"
+				}
+			case *ssa.FieldAddr:
+				if why := classify(r, depth+1); why != "" {
+					return why
+				}
+			case *ssa.IndexAddr:
+				if why := classify(r, depth+1); why != "" {
+					return why
+				}
+			case *ssa.UnOp:
+				if r.Op != token.MUL {
+					continue
+				}
+				switch r.Type().Underlying().(type) {
+				case *types.Slice, *types.Map:
+					if r.Referrers() == nil {
+						continue
+					}
+					for _, rr := range *r.Referrers() {
+						switch rr := rr.(type) {
+						case *ssa.IndexAddr:
+							if why := classify(rr, depth+1); why != "" {
+								return "writes an element of the slice it holds"
+							}
+						case *ssa.MapUpdate:
+							if rr.Map == r {
+								return "updates the map it holds"
+							}
+						}
+					}
+				}
+			case ssa.CallInstruction:
+				cc := r.Common()
+				name := "(dynamic call)"
+				if cal := cc.StaticCallee(); cal != nil {
+					name = cal.String()
+				} else if cc.IsInvoke() {
+					name = cc.Method.FullName()
+				}
+				if !benign(name) {
+					return "passes its address to " + name
+				}
+			}
+		}
+		return ""
+	}
+	nfa := 0
+	for fn := range ssautil.AllFunctions(w.Prog) {
+		if fn.Pkg != sp && !(fn.Parent() != nil && fn.Parent().Pkg == sp) {
+			continue
+		}
+		if pos := w.Fset.Position(fn.Pos()); strings.Contains(pos.Filename, "verif_contracts") || strings.Contains(fn.Name(), "verif_") {
+			continue
+		}
+		for _, b := range fn.Blocks {
+			for _, in := range b.Instrs {
+				fa, ok := in.(*ssa.FieldAddr)
+				if !ok {
+					continue
+				}
+				pt, ok := fa.X.Type().Underlying().(*types.Pointer)
+				if !ok {
+					continue
+				}
+				nt, ok := pt.Elem().(*types.Named)
+				if !ok || nt.Obj() != tn.Object() {
+					continue
+				}
+				nfa++
+				if why := classify(fa, 0); why != "" && !allowed(fn) {
+					bad[fa.Field] = append(bad[fa.Field], engine.ShortFn(fn)+" "+why)
+				}
+			}
+		}
+	}
+	var out []structResult
+	for i := 0; i < st.NumFields(); i++ {
+		name := fmt.Sprintf("struct/%s/writes-only-in:%s", short, st.Field(i).Name())
+		if len(bad[i]) > 0 {
+			sort.Strings(bad[i])
+			out = append(out, structResult{name, false, "written outside its owners: " + strings.Join(bad[i], "; ")})
+		} else {
+			out = append(out, structResult{name, nfa > 0, "no access to the type found"})
 		}
 	}
 	return out
